@@ -53,7 +53,9 @@ public:
             if (isSubscriptionIdValid(subscriptionId)) {
                 (*observer)(args...);
 
-                if (!observer->isValid()) {
+                // the callback may have unsubscribed this very observer,
+                // in which case it has already been destroyed
+                if (isSubscriptionIdValid(subscriptionId) && !observer->isValid()) {
                     unsubscribeById(subscriptionId);
                 }
             }
